@@ -19,18 +19,32 @@
 // Don't-care cells (the property text is silent; every behaviour is accepted):
 //   - WHAT Extract returns: any (inventory, error) combination is fine, including an empty inventory with
 //     a nil error for garbage, and packages together with an error.
-//   - how long a call takes below the watchdog; os/rpm's own 5-minute timeout for corrupt BerkeleyDB files
-//     is a designed bound, so its watchdog is 420 s.
-//   - memory below the abort limits; only an abort (RLIMIT_AS 8 GiB) or > 2 GiB (and > 4096 x file size)
-//     allocated during ONE Extract call counts. Per-call leaks that never abort a call (dotnet/pe does not
-//     unmap the file) are not judged: workers restart themselves when their address space passes 4 GiB.
+//   - how long a call takes below the watchdog. os/rpm bounds go-rpmdb's BerkeleyDB loop with its own
+//     Timeout knob (default 5 min); one-line mutants of testdata/Packages_epoch do spin until it fires
+//     (allocating ~0.7 GB/s of garbage meanwhile). That is the extractor's designed bound, so it is accepted;
+//     to fit the budgets the harness instantiates os/rpm with Timeout 8 s (quick) / 30 s (thorough) — same
+//     code path, far below the 120 s watchdog. Every other extractor is the el.All default instance.
+//   - memory below the abort limits: only an RLIMIT_AS (8 GiB) abort, a goroutine stack overflow, or a
+//     worker that is silent for the whole watchdog period while holding > 2 GiB resident (GOMEMLIMIT; the
+//     collector is merely delaying the abort) is booked as `<extractor>:oom` / `:stack-overflow`. Bytes
+//     allocated per call are reported as telemetry only. Per-call leaks that never abort a call (dotnet/pe
+//     does not unmap the file, java/archive leaves a goroutine behind) are not judged: workers restart
+//     themselves when their address space passes 4 GiB.
 //   - files the extractor would not be given: each placement is validated once against FileRequired with
 //     the unmutated seed; in the containment half the failing extractor's status is only judged when
 //     FileRequired accepts the mutant too.
 //   - in the containment half only the healthy extractor's packages+status, the completion of the scan and
 //     "failing extractor is Failed or PartiallySucceeded" are judged; the overall ScanStatus, the failure
 //     text and the failing extractor's own packages are not.
-//   - the temp files / side effects of an extractor (bolt.Open initialising an empty meta.db) belong to C06.
+//   - temp files / side effects of an extractor (bolt.Open initialising an empty meta.db) belong to C06.
+//   - after a recovered panic the worker process is restarted (locks and mappings leaked by the panicking
+//     call must not influence the next mutant).
+//
+// Harness fidelity notes: in-memory files come from verif/memfs behind safeFS (worker.go), which gives them
+// *os.File offset semantics (negative Seek/ReadAt -> EINVAL instead of a memfs panic). Extractors that
+// resolve real paths (containerd, rpm, dotnet/pe, anything with DirectFS) get a /dev/shm directory and
+// scalibrfs.DirFS with Root set. Every scene also holds /etc/os-release and the fixture's own neighbours
+// (go.sum, _locales/, -r files) so that sibling lookups behave as in a real tree.
 package main
 
 import (
@@ -216,13 +230,13 @@ type manager struct {
 	p   *proc                // owned by the manager goroutine
 	cur atomic.Pointer[proc] // the same, for the watchdog goroutine
 	// progress tracking for the watchdog
-	inUnit   atomic.Bool
-	last     atomic.Int64
-	curSeq   atomic.Int64
-	killedBy atomic.Int32 // 1 = watchdog, 2 = run deadline
-	wd       atomic.Int64
+	inUnit    atomic.Bool
+	last      atomic.Int64
+	curSeq    atomic.Int64
+	killedBy  atomic.Int32 // 1 = watchdog, 2 = run deadline
+	wd        atomic.Int64
 	rssAtKill atomic.Int64
-	hardDL   atomic.Int64 // unix nanos after which a still-running unit is cut (not a violation)
+	hardDL    atomic.Int64 // unix nanos after which a still-running unit is cut (not a violation)
 }
 
 func (m *manager) ensure() error {
@@ -857,12 +871,13 @@ func main() {
 	}
 	r.Set("per_extractor", per)
 	r.Set("operator_set", "v1: identity; truncate; delete/duplicate/swap-adjacent line; replace byte by one of 16 structural tokens; (thorough) delete/duplicate byte; (thorough, binary seeds) set byte of first 1 KiB to 00/ff")
+	r.Assume("os/rpm is instantiated with Config.Timeout = 8 s (quick) / 30 s (thorough) instead of its 5 min default: corrupt BerkeleyDB mutants run into that timeout by design; all other extractors are el.All defaults")
 	r.Assume("java/pomxmlnet is excluded (needs a registry); arbitrary byte strings are NOT covered: only edit distance <= 1 from a fixture or minimal document under operator set v1")
 	b := boundsFor(tier)
 	rule := fmt.Sprintf("for each of %d offline built-in extractors x each seed (every testdata fixture + %d minimal documents, identical contents merged) x each production placement (paths.go, validated against FileRequired): "+
 		"every mutant of operator set v1 — identity; truncate at every offset (seeds <= %d B; larger: every 512-byte boundary); delete / duplicate / swap-adjacent line i (seeds <= %d B); "+
 		"replace byte i by each of 16 structural tokens at every offset (seeds <= %d B) or at line starts (seeds <= %d B); delete / duplicate byte i (seeds <= %d B); set each byte of the first 1 KiB to 00/ff (binary seeds, thorough=%v) — "+
-		"is handed to Extract with a complete ScanInput; Extract must return (no panic, no process death, no RLIMIT_AS 8 GiB abort, < 2 GiB allocated per call, answer within the %v watchdog). "+
+		"is handed to Extract with a complete ScanInput; Extract must return (no panic, no process death, no stack overflow, no RLIMIT_AS 8 GiB abort, answer within the %v watchdog; os/rpm runs with its own Timeout knob set to 8 s quick / 30 s thorough). "+
 		"evaluations = Extract calls + containment scans; distinct_nontrivial = distinct (extractor, placement, mutant bytes) whose Extract returned an error or >= 1 package (i.e. got past the format sniffing or was rejected with a diagnosis; empty error-free results are not counted). "+
 		"Containment: for each extractor and each error class (first 48 chars of the error text, paths/quoted text/digits removed; first %d classes per extractor in enumeration order) the first mutant of that class is scanned by scalibr.Scanner.Scan next to a healthy requirements.txt (dpkg status for python/requirements): "+
 		"the scan completes, the healthy extractor's packages and status equal those of the scan without the bad file, and the failing extractor's status is Failed or PartiallySucceeded.",
